@@ -1,36 +1,15 @@
-// Engine socks5 (C54): the SOCKS5 dialer (Dialer.DialContext / DialWithConn /
-// Dial) against a simulated SOCKS5 server inside a synctest bubble.
-//
-// The simulator plays the server on end B of a vs.StreamConn: it decodes the
-// client's greeting, RFC 1929 sub-negotiation and request with the parser in this
-// file (written from RFC 1928 / RFC 1929, it shares nothing with client.go) and
-// answers with a generated script: valid replies with IPv4 / IPv6 / FQDN bound
-// addresses, or one fault (truncation at every byte position followed by EOF or
-// by silence, wrong version at any stage, 0xFF method, failed authentication,
-// non-zero REP, non-zero RSV, unknown ATYP, a delay that may exceed the context
-// deadline, connection cut, context cancellation at an arbitrary step). Delivery
-// of every byte in both directions is split by the scheduler.
-//
-// Oracle clauses (what the property statement says, nothing more):
-//   request_mismatch        a complete request decoded by the server names another
-//                           command / host / port / ATYP than the one asked for
-//   greeting_malformed,     the bytes before the request cannot be decoded by a
-//   auth_request            conforming server (so it would never see the request)
-//   request_incomplete      the client waits for a reply to a request it never completed
-//   valid_reply_rejected    complete valid exchange, context still live, yet an error
-//   bound_addr_mismatch     returned bound address != the one in the reply
-//   malformed_reply_accepted / success_without_reply
-//                           success although the reply was malformed, truncated,
-//                           a failure reply, or not sent yet
-//   hang                    a truncated/late reply must produce an error: with a
-//                           context deadline (or after cancellation) the dial must
-//                           return within the deadline + slack of simulated time
-//   panic                   never
-// Whether the forward connection is closed on error is recorded
-// (probe.err_conn_closed / stat.err_conn_left_open) but not asserted: the
-// property statement does not mention it.
+// Engine socks5proxy (C54, config "proxy"): the public wrapper proxy.SOCKS5 driven
+// through the proxy.Dialer / proxy.ContextDialer interfaces it returns, with a
+// forward proxy.Dialer (plain, or a ContextDialer) that hands out end A of a
+// simulated connection, and optional proxy.Auth. Server model, fault kinds and
+// oracle are the ones of overlay/internal/socks/verif_socks5_test.go (this file
+// is derived from it; the two packages cannot share test code). What it adds over
+// the internal engine: the wiring in proxy/socks5.go (Auth -> AuthMethods +
+// UsernamePassword.Authenticate, forward Dialer -> ProxyDial, including the
+// goroutine-based dialContext adapter for forward dialers without DialContext).
+// A run is fault-free or faulty by a drawn coin.
 
-package socks
+package proxy
 
 import (
 	"bytes"
@@ -44,6 +23,7 @@ import (
 	"testing"
 	"time"
 
+	"golang.org/x/net/internal/socks"
 	vs "golang.org/x/net/internal/verifsim"
 	"pgregory.net/rapid"
 )
@@ -80,6 +60,7 @@ type s5Plan struct {
 	Bound   s5Bound
 	Garbage []byte
 	Eager   bool // server writes its whole script before reading anything
+	Forward int  // 0: forward dialer implements ContextDialer, 1: plain Dialer
 
 	Fault     string // "", trunc_eof, trunc_stall, wrong_version, no_acceptable, auth_fail, reply_code, rsv, atyp, odd_method
 	FaultStage int
@@ -214,10 +195,11 @@ func s5DrawDest(c vs.Chooser, faulty bool) s5Dest {
 func s5DrawPlan(rt *rapid.T, faulty bool) *s5Plan {
 	c := vs.RapidChooser{T: rt}
 	p := &s5Plan{DelayStage: -1}
-	p.API = vs.Pick(c, s5APIDialContext, s5APIDialContext, s5APIDialWithConn, s5APIDial)
+	p.API = vs.Pick(c, s5APIDialContext, s5APIDialContext, s5APIDial)
+	p.Forward = c.Intn(2)
 	p.Network = vs.Pick(c, "tcp", "tcp4", "tcp6")
 	p.Dest = s5DrawDest(c, faulty)
-	p.Auth = vs.Pick(c, 0, 0, 1, 1, 2, 3)
+	p.Auth = vs.Pick(c, 0, 1, 1)
 	if p.Auth != 0 {
 		ul := vs.Pick(c, 8, 1, 255, 17, 0, 256)
 		pl := vs.Pick(c, 8, 0, 1, 255, 33, 256)
@@ -643,16 +625,14 @@ type s5Result struct {
 }
 
 func s5Run(rt *rapid.T, t *testing.T) {
-	faulty := vs.Config() == "fault"
 	for _, n := range []string{"probe.success_bound_ipv4", "probe.success_bound_ipv6", "probe.success_bound_fqdn", "probe.dest_fqdn_255",
 		"probe.dest_fqdn_too_long_refused", "probe.dest_ipv6_mapped", "probe.auth_userpass_decoded", "probe.err_conn_closed", "probe.eager_server"} {
 		vs.G.Add(n, 0)
 	}
-	if faulty {
-		for _, n := range []string{"probe.returned_at_deadline", "probe.returned_on_cancel", "probe.error_on_faulty_reply"} {
-			vs.G.Add(n, 0)
-		}
+	for _, n := range []string{"probe.returned_at_deadline", "probe.returned_on_cancel", "probe.error_on_faulty_reply", "probe.forward_plain_dialer", "probe.forward_context_dialer"} {
+		vs.G.Add(n, 0)
 	}
+	faulty := rapid.Bool().Draw(rt, "faulty")
 	p := s5DrawPlan(rt, faulty)
 	tape := vs.DrawTape(rt, 256)
 	tr := vs.NewTrace()
@@ -686,26 +666,26 @@ func s5Run(rt *rapid.T, t *testing.T) {
 		}
 		var cancelledAt time.Duration = -1
 
-		d := NewDialer("tcp", "proxy.example:1080")
 		dials := 0
-		d.ProxyDial = func(_ context.Context, network, address string) (net.Conn, error) {
+		fwd := &s5Forward{dial: func() (net.Conn, error) {
 			dials++
 			if dials > 1 {
 				return nil, errors.New("sim: only one forward connection")
 			}
 			return conn.A, nil
+		}}
+		var forward Dialer = fwd
+		if p.Forward == 0 {
+			forward = &s5ForwardCtx{fwd}
 		}
+		var auth *Auth
 		if p.Auth != 0 {
-			up := &UsernamePassword{Username: p.User, Password: p.Pass}
-			d.Authenticate = up.Authenticate
-			switch p.Auth {
-			case 1:
-				d.AuthMethods = []AuthMethod{AuthMethodNotRequired, AuthMethodUsernamePassword}
-			case 2:
-				d.AuthMethods = []AuthMethod{AuthMethodUsernamePassword}
-			default:
-				d.AuthMethods = []AuthMethod{AuthMethodUsernamePassword, AuthMethodNotRequired}
-			}
+			auth = &Auth{User: p.User, Password: p.Pass}
+		}
+		d, derr := SOCKS5("tcp", "proxy.example:1080", auth, forward)
+		if derr != nil {
+			harness = "proxy.SOCKS5: " + derr.Error()
+			return
 		}
 
 		sim.Go("server", "C54", srv.run)
@@ -716,15 +696,15 @@ func s5Run(rt *rapid.T, t *testing.T) {
 			var err error
 			switch p.API {
 			case s5APIDialContext:
-				c, err = d.DialContext(ctx, p.Network, p.Dest.Addr)
-				if sc, ok := c.(*Conn); ok && err == nil {
+				cd, ok := d.(ContextDialer)
+				if !ok {
+					err = errors.New("sim: proxy.SOCKS5 result is not a ContextDialer")
+					break
+				}
+				c, err = cd.DialContext(ctx, p.Network, p.Dest.Addr)
+				if sc, ok := c.(*socks.Conn); ok && err == nil {
 					a = sc.BoundAddr()
 					res.isConn = true
-				}
-			case s5APIDialWithConn:
-				a, err = d.DialWithConn(ctx, conn.A, p.Network, p.Dest.Addr)
-				if err == nil {
-					c = conn.A
 				}
 			default:
 				c, err = d.Dial(p.Network, p.Dest.Addr)
@@ -850,6 +830,11 @@ func s5Judge(p *s5Plan, srv *s5Server, res *s5Result, tr *vs.Trace, slack time.D
 	ok := res.err == nil
 	tr.Ev("result ok=%v ctxerr=%v cut=%v full=%v", ok, res.ctxErrAt != nil, res.cutAt, res.fullAt)
 	vs.G.Inc("dest." + p.Dest.Class)
+	if p.Forward == 1 {
+		vs.G.Inc("probe.forward_plain_dialer")
+	} else {
+		vs.G.Inc("probe.forward_context_dialer")
+	}
 
 	// 1. the request a conforming server decoded
 	if r := srv.req; r != nil && p.Dest.Class != "malformed" {
@@ -926,7 +911,7 @@ func s5Judge(p *s5Plan, srv *s5Server, res *s5Result, tr *vs.Trace, slack time.D
 		if mustFail && srv.faultOn || srv.stalled || srv.closedW {
 			vs.G.Inc("probe.error_on_faulty_reply")
 		}
-		if p.API == s5APIDialContext {
+		if p.API == s5APIDialContext && p.Forward == 0 {
 			if res.closedAt {
 				vs.G.Inc("probe.err_conn_closed")
 			} else if srv.greetingOK {
@@ -949,7 +934,7 @@ func s5Judge(p *s5Plan, srv *s5Server, res *s5Result, tr *vs.Trace, slack time.D
 }
 
 func s5CheckBound(p *s5Plan, a net.Addr) *vs.Violation {
-	sa, _ := a.(*Addr)
+	sa, _ := a.(*socks.Addr)
 	if sa == nil {
 		return vs.Violf("C54", "bound_addr_mismatch", "nil", "no bound address returned (got %T %v), server sent ATYP %d %s port %d", a, a, p.Bound.Atyp, vs.Hex(p.Bound.Raw), p.Bound.Port)
 	}
@@ -983,3 +968,14 @@ func s5CheckBound(p *s5Plan, a net.Addr) *vs.Violation {
 }
 
 func TestVerif_C54(t *testing.T) { vs.Check(t, func(rt *rapid.T) { s5Run(rt, t) }) }
+
+// s5Forward is a forward proxy.Dialer without DialContext; s5ForwardCtx adds it.
+type s5Forward struct{ dial func() (net.Conn, error) }
+
+func (f *s5Forward) Dial(network, addr string) (net.Conn, error) { return f.dial() }
+
+type s5ForwardCtx struct{ *s5Forward }
+
+func (f *s5ForwardCtx) DialContext(ctx context.Context, network, addr string) (net.Conn, error) {
+	return f.dial()
+}
